@@ -213,6 +213,18 @@ func c18run(w *report.W) {
 				w.Violate(report.Violation{Kind: "validate-table", Case: "NewKeyPair HS512 then Validate", Detail: "symmetric key accepted", Size: 1})
 			}
 		}
+		// ... also when built from a caller-provided secret, with any algorithm name
+		for _, alg := range []jwa.SignatureAlgorithm{jwa.HS256, jwa.HS512, jwa.ES512, jwa.PS512, jwa.EdDSA} {
+			if priv, pub, err := jwkutil.NewSymmetricKeyPairFromString("kid", "correct horse battery staple", alg); err == nil {
+				for _, set := range []jwk.Set{priv, pub} {
+					key, _ := set.Key(0)
+					w.P.Evaluations++
+					if jwkutil.Validate(key) == nil {
+						w.Violate(report.Violation{Kind: "validate-table", Case: "NewSymmetricKeyPairFromString alg=" + alg.String() + " then Validate", Detail: "symmetric key accepted", Size: 1})
+					}
+				}
+			}
+		}
 		payloads := []map[string]any{
 			{"command": "echo hi"},
 			{"command": "", "env": map[string]string{"A": "b"}},
